@@ -63,6 +63,11 @@ def check_assert(iv, f, bi, t, prov):
         return False, 'shift amount %s in %r may reach %d bits' % (expr_str(ops[1])[:40], amt, bits)
     if len(ops) < 2:
         return False, 'unary overflow'
+    if op in ('Div', 'Rem'):
+        d = iv.eval(f, bi, ops[1])
+        if d.lo > -1 or d.hi < -1:
+            return True, 'signed division cannot be MIN / -1: divisor %r' % d
+        return False, 'signed division may be MIN / -1 (divisor %r)' % d
     binop = {'Add': 'Add', 'Sub': 'Sub', 'Mul': 'Mul'}.get(op)
     if not binop:
         return False, 'op %s not modelled' % op
@@ -420,3 +425,228 @@ def int_ovf_est(ctx):
     n = run_int_ovf(ctx, reach, 'caller-chosen')
     if n == 0:
         ctx.anchor_missing('scalar functions under the estimators')
+
+
+# --------------------------------------------------------------------------- OPT-TAINT (C19)
+
+OPTION_ADTS = ('LZMAOptions', 'LZMA2Options', 'XZOptions', 'LZIPOptions', 'FilterConfig')
+WRITER_ADTS = ('LZMAWriter', 'LZMA2Writer', 'XZWriter', 'LZIPWriter', 'LZMA2WriterMT', 'LZIPWriterMT', 'BCJWriter',
+               'DeltaWriter')
+
+
+def writer_ctor_roots(F):
+    roots = []
+    for f in F.fns:
+        if f.kind == 'closure' or not f.self_adt:
+            continue
+        adt = last_seg(f.self_adt)
+        if adt in WRITER_ADTS and f.d.get('pub') and not (f.impl and f.impl.get('trait')):
+            first = f.locals[1].get('name') if f.arg_count >= 1 else None
+            if first != 'self':
+                roots.append(f)
+        if adt in OPTION_ADTS and f.d.get('pub') and not (f.impl and f.impl.get('trait')):
+            roots.append(f)
+    return roots
+
+
+def _exc_lzip_dict(F, f):
+    """lzip::encode_dict_size is only called with LZIPWriter's stored dict_size, which the
+    constructor overwrote with clamp(MIN_DICT_SIZE, MAX_DICT_SIZE)."""
+    callers = []
+    for g in F.fns:
+        for bi, t, c in g.calls():
+            if c.path == f.path:
+                callers.append(g)
+    if not callers or any(last_seg(g.self_adt or '') not in ('LZIPWriter',) for g in callers):
+        return False, ''
+    ctor = [g for g in F.fns if g.self_adt == callers[0].self_adt and g.name == 'new']
+    if not ctor:
+        return False, ''
+    pg = Prov(ctor[0])
+    for bi, b in enumerate(ctor[0].blocks):
+        for s in b['stmts']:
+            if s['k'] == 'assign' and s['lhs']['p'] and isinstance(s['lhs']['p'][-1], dict) and s['lhs']['p'][-1].get('n') == 'dict_size':
+                v = pg.rvalue(s['rv'], 0)
+                cl = [x for x in expr_walk(v) if x[0] == 'call' and x[1].endswith('clamp')]
+                if cl and cl[0][2][1][0] == 'const' and cl[0][2][1][2] >= 4096 and cl[0][2][2][0] == 'const':
+                    return True, ('only caller is LZIPWriter, whose constructor stores dict_size.clamp(%d, %d) before any use '
+                                  '(checked on the constructor MIR): 1 <= leading_zeros <= 19, no underflow' % (cl[0][2][1][2], cl[0][2][2][2]))
+    return False, ''
+
+
+# functions outside the interval domain (DESIGN.md 3.2): listed as "not decided", never as "fine"
+OPT_NOT_DECIDED = {
+    'LZMAEncoder::get_dist_slot': 'total for dist >= 5 because `i` tracks the leading one of `n` (bit-level invariant '
+                                  'outside an interval domain); not decided',
+}
+OPT_EXCEPTIONS = {'lzip::encode_dict_size': _exc_lzip_dict}
+
+
+class OptionDerived:
+    """Does an expression carry a public option value (a pub field of an option struct, or a
+    parameter of a public constructor) — directly, through call arguments, or through a struct field
+    that is only ever initialised from such a value?"""
+
+    def __init__(self, F, iv, reach):
+        self.F = F
+        self.iv = iv
+        self.reach = reach
+        self.memo = {}
+
+    def derived(self, fn, e, depth=0):
+        for x in expr_walk(e):
+            if x[0] == 'field' and len(x) > 3 and x[3]:
+                r = self.field(x[3], x[2], depth)
+                if r:
+                    return r
+            elif x[0] == 'param':
+                r = self.param(fn, x[1], depth)
+                if r:
+                    return r
+        return None
+
+    def field(self, owner, name, depth):
+        k = ('F', owner, name)
+        if k in self.memo:
+            return self.memo[k]
+        self.memo[k] = None
+        adt = self.F.adt(owner)
+        if adt is None:
+            return None
+        fl = [x for x in adt['variants'][0]['fields'] if x['name'] == name]
+        if not fl or fl[0]['ty'] not in TYMAX:
+            return None
+        if owner in OPTION_ADTS and fl[0].get('pub'):
+            self.memo[k] = '%s.%s' % (owner, name)
+            return self.memo[k]
+        return None   # internal struct fields are run-time state: not followed
+        if depth > 3:
+            return None
+        res = None
+        for g in self.F.fns:
+            if g.path not in self.reach:
+                continue
+            pg = None
+            for bi, b in enumerate(g.blocks):
+                if b['cleanup']:
+                    continue
+                for s in b['stmts']:
+                    if s['k'] != 'assign':
+                        continue
+                    rv = s['rv']
+                    lp = s['lhs']['p']
+                    if lp and isinstance(lp[-1], dict) and lp[-1].get('n') == name and last_seg(lp[-1].get('o')) == owner:
+                        # mutated after construction: run-time state, not an option carrier
+                        self.memo[k] = None
+                        return None
+                    if rv['r'] == 'agg' and rv.get('kind') == 'adt' and last_seg(rv['adt']) == owner and name in rv['fields']:
+                        pg = pg or self.iv.prov(g)
+                        val = pg.operand(rv['ops'][rv['fields'].index(name)])
+                        r = self.derived(g, val, depth + 1)
+                        if r:
+                            res = r
+        self.memo[k] = res
+        return res
+
+    def param(self, fn, idx, depth):
+        k = ('P', fn.path, idx)
+        if k in self.memo:
+            return self.memo[k]
+        self.memo[k] = None
+        if fn.local_ty(idx) not in TYMAX:
+            return None
+        res = None
+        if fn.d.get('pub') and fn.self_adt and last_seg(fn.self_adt) in WRITER_ADTS and (fn.arg_count < 1 or fn.locals[1].get('name') != 'self'):
+            res = '%s(%s)' % (fn.key, fn.local_name(idx))
+        if res is None and depth <= 3:
+            for (g, bi, t) in self.iv.callers(fn):
+                if idx - 1 < len(t['args']):
+                    r = self.derived(g, self.iv.prov(g).operand(t['args'][idx - 1]), depth + 1)
+                    if r:
+                        res = r
+                        break
+        self.memo[k] = res
+        return res
+
+
+@rule('OPT-TAINT', ['C19'], floor=20)
+def opt_taint(ctx):
+    """Every public option value a caller can set reaches, unvalidated, no overflow / shift /
+    subtraction that can trap or wrap: in the loop-free functions reachable from the writer
+    constructors and the option structs' methods each arithmetic assert is proven unreachable with
+    the public option fields and constructor parameters ranging over their whole type; the
+    properties byte handed to the stream fits its u8."""
+    F = ctx.facts
+    roots = writer_ctor_roots(F)
+    if len(roots) < 8:
+        return ctx.anchor_missing('writer constructors / option methods (found %d)' % len(roots))
+    # constructor call tree only: do not follow the closures handed to thread::spawn (worker run time)
+    from rules.concurrency import worker_fns
+    workers = {f.path for f, _, _ in worker_fns(F)}
+    reach = {}
+    stack = list(roots)
+    cg = F.callgraph()
+    while stack:
+        f = stack.pop()
+        if f.path in reach or f.path in workers or f.kind == 'closure':
+            continue
+        reach[f.path] = True
+        for _, g in cg[f.path]:
+            stack.append(g)
+    iv = Intervals(F, scope=set(reach))
+    od = OptionDerived(F, iv, reach)
+    n = 0
+    for p in sorted(reach):
+        f = F.by_path[p]
+        if f.kind == 'closure' or f.loops():
+            continue
+        if f.key in OPT_NOT_DECIDED:
+            ctx.info('%s:not-decided' % f.key, f.loc(0), OPT_NOT_DECIDED[f.key])
+            continue
+        prov = Prov(f)
+        bad = []
+        cnt = {}
+        for bi, t in overflow_asserts(f):
+            pos = '%d:T' % bi
+            ops = [prov.operand(o, 0, pos) for o in t['msg_ops']]
+            if t['msg'] in ('DivisionByZero', 'RemainderByZero'):
+                ops = [prov.operand(t['cond'], 0, pos)]
+            src = None
+            for o in ops:
+                src = src or od.derived(f, o)
+            if not src:
+                continue   # run-time state arithmetic: not an option-validation question
+            n += 1
+            base = '%s:%s' % (f.key, t['msg'])
+            cnt[base] = cnt.get(base, 0) + 1
+            key = base if cnt[base] == 1 else '%s#%d' % (base, cnt[base])
+            ok, detail = check_assert(iv, f, bi, t, prov)
+            if ok:
+                ctx.ok(key, f.loc(bi), detail + ' (from %s)' % src)
+            else:
+                bad.append((bi, t['msg'], detail + ' (from %s)' % src))
+        if bad and f.key in OPT_EXCEPTIONS:
+            okx, why = OPT_EXCEPTIONS[f.key](F, f)
+            if okx:
+                ctx.exception('%s:option-arith' % f.key, f.loc(bad[0][0]), why)
+                bad = []
+        if bad:
+            ctx.violation('%s:option-arith' % f.key, f.loc(bad[0][0]),
+                          'unvalidated option values reach arithmetic that can trap/wrap; %d site(s): %s' % (
+                              len(bad), ' | '.join('%s %s' % (f.loc(b), d) for b, m, d in bad))[:900])
+        # u8-returning option encoders: the value must fit
+        if f.d.get('output') == 'u8' and f.self_adt and last_seg(f.self_adt) in OPTION_ADTS:
+            for (bi, si, k, node) in f.whole_defs(0):
+                if k == 'assign' and node['rv']['r'] == 'cast':
+                    n += 1
+                    e = prov.operand(node['rv']['o'], 0, '%d:%d' % (bi, si))
+                    r = iv.eval(f, bi, e)
+                    key = '%s:fits-u8' % f.key
+                    if r.hi <= 255 and r.lo >= 0:
+                        ctx.ok(key, f.loc(bi, si), 'value in %r' % r)
+                    else:
+                        ctx.violation(key, f.loc(bi, si), 'the byte written into the stream header is a truncation of %s with '
+                                      'range %r: out-of-range lc/lp/pb are silently encoded as a different (undecodable) '
+                                      'properties byte' % (expr_str(e)[:60], r))
+    if n == 0:
+        ctx.anchor_missing('arithmetic in writer constructors')
